@@ -7,6 +7,8 @@
 //!   U16/I16  BUintD8<2>/BIntD8<2>   carrier u16/i16
 //!   U32/I32  BUintD16<2>/BIntD16<2> carrier u32/i32
 //!   U128/I128 BUint<2>/BInt<2>      carrier u128/i128
+//!   U48/I48  BUintD16<3>/BIntD16<3> carrier i128 (exact integer)
+//!   U192/I192 BUint<3>/BInt<3>      carrier [u64; 3] (the digit array: bit-level references)
 //!   Exp (u32), Bool, and the primitive shift-amount types are passed through unchanged.
 //! `conv!(K, v)` maps a bnum result into the carrier of kind K.
 
@@ -19,6 +21,10 @@ macro_rules! mk {
     (I16) => {{ let x = crate::conv::any_i8x2(); (x, crate::conv::i8x2(x) as i16) }};
     (U32) => {{ let x = crate::conv::any_u16x2(); (x, crate::conv::u16x2(x) as u32) }};
     (I32) => {{ let x = crate::conv::any_i16x2(); (x, crate::conv::i16x2(x) as i32) }};
+    (U48) => {{ let x = crate::conv::any_u16x3(); (x, crate::conv::u16x3(x) as i128) }};
+    (I48) => {{ let x = crate::conv::any_i16x3(); (x, crate::conv::i16x3(x)) }};
+    (U192) => {{ let d: [u64; 3] = kani::any(); (bnum::BUint::<3>::from_digits(d), d) }};
+    (I192) => {{ let d: [u64; 3] = kani::any(); (bnum::BInt::<3>::from_bits(bnum::BUint::<3>::from_digits(d)), d) }};
     (U128) => {{ let x = crate::conv::any_u64x2(); (x, crate::conv::u64x2(x)) }};
     (I128) => {{ let x = crate::conv::any_i64x2(); (x, crate::conv::i64x2(x)) }};
     (Exp) => {{ let s: u32 = kani::any(); (s, s) }};
@@ -45,6 +51,10 @@ macro_rules! conv {
     (I16, $v:expr) => { crate::conv::i8x2($v) as i16 };
     (U32, $v:expr) => { crate::conv::u16x2($v) as u32 };
     (I32, $v:expr) => { crate::conv::i16x2($v) as i32 };
+    (U48, $v:expr) => { crate::conv::u16x3($v) as i128 };
+    (I48, $v:expr) => { crate::conv::i16x3($v) };
+    (U192, $v:expr) => { *$v.digits() };
+    (I192, $v:expr) => { *$v.to_bits().digits() };
     (U128, $v:expr) => { crate::conv::u64x2($v) };
     (I128, $v:expr) => { crate::conv::i64x2($v) };
     (Raw, $v:expr) => { $v };
@@ -100,6 +110,19 @@ macro_rules! hmp {
             let r = $bn;
             let _ = r;
             kani::cover!(true, "returned-normally");
+        }
+    };
+}
+
+/// Free-form harness: `hc!{name, unwind, (a: K, ..) { body with covers and asserts }}`.
+macro_rules! hc {
+    ($name:ident, $unw:expr, ($($v:ident : $k:ident),*) $body:block) => {
+        #[kani::proof]
+        #[kani::unwind($unw)]
+        fn $name() {
+            $( let $v = mk!($k); )*
+            kani::cover!(true, "reachable");
+            $body
         }
     };
 }
